@@ -92,6 +92,71 @@ CHECKS["C08"] = dict(
     technique="TLA+/TLC exhaustive model checking + scenario replay + TLC-validated fact traces",
     note=TRUST + "; the finite-difference identity needs exp/log and is decided by conformance, not by TLC")
 
+CHECKS["C03"] = dict(
+    text="TLC checks specs/GmmMStep.tla (exact rationals): for all seven non-empty update-switch sets every enabled block of the "
+         "ML M-step is a stationary point of the EM auxiliary function at the values the step leaves in place, weights stay on the "
+         "simplex, variances above the floor, and the step is affine equivariant; the deviating variant (variance about a frozen "
+         "mean computed as E[x^2]-m^2) is refuted. ml_gmm_m_step is replayed on the exact statistics of every exported state. "
+         "Seeded training runs (8 switch sets, NumPy and Dask, caps and thresholds incl. None) are recorded as rank traces of the "
+         "average log-likelihood with exact comparisons of the reported criteria and validated by TLC against specs/TraceLoop.tla "
+         "(monotone unless a floor is active, cap respected, no convergence before step 2, stop at the first crossing); the same "
+         "TrainLoop guards are model-checked exhaustively inside specs/KMeans.tla.",
+    ref="DESIGN.md section 5 (C03)",
+    technique="TLA+/TLC model checking of the M-step + replay + TLC trace validation of training runs",
+    note=TRUST + "; likelihood ascent on real-valued data needs exp/log and is decided by trace validation, not by TLC; the EM "
+         "ascent theorem links block stationarity to ascent")
+CHECKS["C07"] = dict(
+    text="TLC checks specs/FaLatent.tla (rank-1 ISV/JFA latent updates over exact rationals, one step from ANY small-rational "
+         "latent state): each block update lands on the conditional mode (gradient of the joint log-posterior J vanishes, block "
+         "precision positive), J never decreases along updates and enrolment iterations, affine invariance; the deviation "
+         "JFA_FN_Y_MINUS_DZ is refuted. Every exported edge is replayed through update_y / compute_latent_x / update_z / enroll; "
+         "seeded real-valued enrolments with 1..K iterations are recorded as rank traces of an independently evaluated J (plus "
+         "J_K <= J(mode) and convergence of the gap) and validated by TLC.",
+    ref="DESIGN.md section 5 (C07)",
+    technique="TLA+/TLC inductive one-step model checking + edge replay + TLC trace validation",
+    note=TRUST + "; rank 1, C<=2, D=1 in the exact model; the independent NumPy evaluation of J and of the posterior mode is "
+         "trusted and self-checked at every run")
+CHECKS["C09"] = dict(
+    text="TLC checks specs/JfaPhases.tla: a control layer transcribing JFAMachine.fit with subspaces as version tags (phase order, "
+         "hand-over of the point estimates computed with the final subspace, z = 0 in the V and U phases, every E-step sees the "
+         "current subspace) and a numeric layer at rank 1 over exact rationals (posterior moments satisfy the normal equations, "
+         "accumulators are the moments, M-steps solve their normal equations, the auxiliary function does not decrease); five "
+         "deviations are refuted. Every numeric state is replayed through the public per-phase steps; recorded call sequences of "
+         "the real fit (methods wrapped on the instance) must equal TLC's behaviour and are validated by specs/TraceJfa.tla; "
+         "per-phase marginal likelihoods (independent NumPy evaluators, checked against quadrature) are validated as rank traces.",
+    ref="DESIGN.md section 5 (C09)",
+    technique="TLA+/TLC model checking (control + numeric layers) + replay + TLC trace validation of recorded fits",
+    note=TRUST + "; marginal likelihoods contain log-determinants and are decided by trace validation with independent evaluators")
+CHECKS["C10"] = dict(
+    text="TLC checks specs/IVector.tla (exact rationals, dim_t 1..2, one step from any small (T, sigma)): the projection solves the "
+         "posterior system, zero-frame statistics give the zero vector, the M-step solves its normal equations with the zero-matrix "
+         "guard, updated covariances respect the floor and stay finite (zero-count component), affine invariance; the deviation "
+         "IVECTOR_SIGMA_DIV_ZERO_COUNT is refuted. Every exported state is replayed through project / transform / e_step / m_step; "
+         "marginal-likelihood rank traces of seeded trainings (module-level steps and fit) are validated by TLC.",
+    ref="DESIGN.md section 5 (C10)",
+    technique="TLA+/TLC inductive one-step model checking + state replay + TLC trace validation",
+    note=TRUST + "; the marginal likelihood evaluator is independent NumPy code checked against quadrature at every run")
+CHECKS["C11"] = dict(
+    text="TLC checks specs/FaScore.tla (exact rationals, rank 1): the channel factor solves its posterior system, the score is the "
+         "frame-normalised linear score of the client mean with the UBM shifted by U x, scoring a list equals scoring the sum, "
+         "transform equals estimate_ux; five deviations are refuted. Every exported scenario is replayed through estimate_x, "
+         "estimate_ux, score and (one-component case) the array entry points; agreement of the array-level entry points "
+         "(score/enroll/fit_using_array, ISVMachine.transform) with the statistics-level ones on seeded data is recorded as fact "
+         "traces validated by TLC.",
+    ref="DESIGN.md section 5 (C11)",
+    technique="TLA+/TLC model checking + scenario replay + TLC-validated fact traces",
+    note=TRUST + "; general ranks only through the fact traces against an independent dense solve")
+CHECKS["C14"] = dict(
+    text="TLC checks specs/Wccn.tla and specs/Whitening.tla over exact rationals: the within-class scatter depends only on the "
+         "partition (every label bijection incl. negative, non-contiguous, unsorted labels, every iteration order of the label set, "
+         "every sample order), class means are looked up by class, scaling by the class count, sample mean and (N-1) covariance; "
+         "two deviations are refuted. Every exported scenario is replayed through WCCN.fit / Whitening.fit (NumPy and Dask under "
+         "the replaying scheduler): W lower-triangular with positive diagonal, inv(W W^T) equals the exact matrix, transformed "
+         "training data have identity scatter / covariance.",
+    ref="DESIGN.md section 5 (C14)",
+    technique="TLA+/TLC exhaustive model checking + scenario replay",
+    note=TRUST + "; Cholesky factors are characterised declaratively and checked on the real result, not computed by TLC")
+
 PENDING = {}
 
 
